@@ -439,7 +439,7 @@ func c20PoolL2(ctx *core.Ctx) {
 		return
 	}
 	r := ctx.Rand("c20-pool")
-	n := ctx.Scale(20000, 300000)
+	n := ctx.Scale(20000, 120000)
 	var reqs []string
 	var wants [][]string
 	flush := func() {
